@@ -636,3 +636,28 @@ def fstring(it, parts, node=None):
     if ok:
         return SV(z3.Concat(*zs) if len(zs) > 1 else zs[0], "str")
     return SV(it.cx.fresh("msg", z3.StringSort()), "str")
+
+
+def ite_merge(it, c, a, b, node=None):
+    """If(c, a, b) on interpreter values (scalars; None merges with values of a sort that has a none constant)"""
+    def sort_of(v):
+        return v.e.sort() if isinstance(v, SV) else None
+    sa, sb = sort_of(a), sort_of(b)
+    srt = sa if sa is not None else sb
+    if a is None and b is None:
+        return None
+    if a is None or b is None:
+        nn = it.engine.none_const(srt) if srt is not None else None
+        if nn is None:
+            raise OutOfSubset("merging None with a value that has no None representation", node)
+        ea = nn if a is None else a.e
+        eb = nn if b is None else b.e
+        other = a if b is None else b
+        return SV(z3.If(c, ea, eb), other.kind)
+    ka, kb = kind_of(a), kind_of(b)
+    if ka is None or kb is None:
+        raise OutOfSubset("merging non-scalar values of an element-dependent conditional", node)
+    if ka == kb:
+        return SV(z3.If(c, to_z3(a), to_z3(b)), ka)
+    k = _num_kind(ka, kb)
+    return SV(z3.If(c, to_z3(a, k), to_z3(b, k)), k)
